@@ -968,6 +968,8 @@ class Checksums(productmd.common.MetadataBase):
 
     def _validate_checksum_paths(self):
         for path in self.checksums:
+            if not isinstance(path, six.string_types):
+                raise TypeError("Checksum path must be a string: %r" % (path, ))
             if path.startswith("/"):
                 raise ValueError("Only relative paths are allowed for checksums: %s" % path)
 
